@@ -209,6 +209,11 @@ package derive
 
 //@ func (pkg *pkg) Add(call *call) (r string, err error)
 //@ assigns handledBy
+// C09: a refusal of the addressed plugin is returned (history variable stepFailed: some step of this call reported an error)
+//@ local-ghost: stepFailed
+//@ ghost-after-call derive.Generator.Add: stepFailed = stepFailed || $ret1 != nil
+//@ ensures [failure-propagates] err == nil ==> !stepFailed
+//@ loop 1: invariant !stepFailed
 //@ requires call != nil
 //@ ensures [first-match] (r != "" && err == nil) ==> exists i int :: 0 <= i && i < len(pkg.plugins) && hasPrefix(call.Name, derive.Plugin.GetPrefix(pkg.plugins[i]))
 //@    && handledBy == pkg.generators[derive.Plugin.Name(pkg.plugins[i])]
@@ -504,6 +509,13 @@ package derive
 // C01: on success no plugin has a registered type list left to generate (every
 // requested helper was handed to its plugin's Generate); termination is not shown.
 //@ ensures [work-list-empty] err == nil ==> derive.pkg.Done(pkg)
+// C09: a generator's error ends the run of the package with an error
+//@ local-ghost: stepFailed
+//@ ghost-after-call derive.Generator.Generate: stepFailed = stepFailed || $ret0 != nil
+//@ ensures [failure-propagates] err == nil ==> !stepFailed
+//@ loop 1: invariant !stepFailed
+//@ loop 2: invariant !stepFailed
+//@ loop 3: invariant !stepFailed
 //@ loop 1: invariant pkg.generators == old(pkg.generators) && pkg.plugins == old(pkg.plugins)
 //@ loop 2: invariant pkg.generators == old(pkg.generators) && pkg.plugins == old(pkg.plugins)
 //@ loop 3: invariant pkg.generators == old(pkg.generators) && pkg.plugins == old(pkg.plugins)
@@ -536,6 +548,15 @@ package derive
 //@ local-ghost: callsLeft
 //@ ghost-after-call derive.newPackage: callsLeft = $ret1 == nil && len($ret0.undefined) > 0
 //@ ensures [no-call-left-behind] err == nil ==> !callsLeft
+// C09: an error of any step (analysis, generation, writing or removing the file, reloading) is returned
+//@ local-ghost: stepFailed
+//@ ghost-after-call derive.newPackage: stepFailed = stepFailed || $ret1 != nil
+//@ ghost-after-call derive.pkg.Generate: stepFailed = stepFailed || $ret1 != nil
+//@ ghost-after-call derive.pkg.Print: stepFailed = stepFailed || $ret0 != nil
+//@ ghost-after-call derive.pkg.Delete: stepFailed = stepFailed || $ret0 != nil
+//@ ghost-after-call derive.load: stepFailed = stepFailed || $ret1 != nil
+//@ ensures [failure-propagates] err == nil ==> !stepFailed
+//@ loop 1: invariant !stepFailed
 //@ ensures [user-files-intact] (!pg.autoname && !pg.dedup) ==> forall q string :: !isDerivedFile(q) ==> ((q in fs) <==> (q in old(fs))) && fs[q] == old(fs)[q]
 //@ ensures [only-derived-file-created-or-deleted] forall q string :: !isDerivedFile(q) ==> ((q in fs) <==> (q in old(fs)))
 // C11: the package is analysed under the flags the program was loaded with, each in its own place
@@ -670,6 +691,11 @@ package derive
 //@ ensures forall i int :: 0 <= i && i < len(r) ==> infoOK(r[i])
 
 //@ func (pg *program) Generate() (err error)
+// C09: the error of a package is the error of the run
+//@ local-ghost: stepFailed
+//@ ghost-after-call derive.program.generatePackage: stepFailed = stepFailed || $ret0 != nil
+//@ ensures [failure-propagates] err == nil ==> !stepFailed
+//@ loop 1: invariant !stepFailed
 //@ assigns fs, foff, handledBy, synced, renamedUnsaved, any ast.CallExpr.Fun, any derive.finder.undefined, any derive.finder.derived, any derive.finder.funcNames, any derive.printer.hasContent, any derive.printer.indent, any derive.printer.w, any derive.printer.imports, any derive.typesMap.generated, any derive.typesMap.funcToTyps, any derive.typesMap.typss
 //@ requires [nothing-pending] !renamedUnsaved
 //@ ensures [renamed-call-sites-saved] err == nil ==> !renamedUnsaved
